@@ -25,11 +25,17 @@ CFG = dict(
              "hand-written model coq/theories/C05/Model.v tied to felix/calc/active_rules_calculator.go, validation_filter.go and "
              "felix/labelindex/label_inheritance_index.go by this correspondence run",
              "Go driver harness/C05 (overlay build, tag verif): its mapping of model.Rule/Policy/ProfileRules to the abstract values"],
-    assumptions=["validate : value -> bool is a Section variable in the theorems; in the correspondence run it is the generator's "
-                 "statement of which objects break a validation rule, and the real validators are checked against it",
+    assumptions=["validate : value -> bool is universally quantified in the theorems; in the correspondence run it is the generator's "
+                 "statement of which objects break a rule of the v1 validator / validateWorkloadEndpoint, and the real validators are "
+                 "checked against it (oracle clause ok_filter)",
                  "Go map iteration orders (label-index scan order, added/removed profile id maps) are universally quantified inputs "
-                 "of every model step; the correspondence run reads them off the implementation's trace",
-                 "domain: no v3 Profile resources (labels to apply) are fed, so endpoints do not inherit labels"],
+                 "of every model step (i_sched may even be wrong, partial or duplicated); the ARC-mode correspondence reads them off "
+                 "the implementation's own trace, the whole-graph mode compares order-independent profile views",
+                 "domain: no v3 Profile resources (labels to apply) are fed, so endpoints do not inherit labels; rules use action / "
+                 "protocol / destination ports / ip_version only; the PolicyResolver/PolicySorter (tier ordering, invalid tiers "
+                 "sorting last) is NOT modelled here: tiers enter the ARC only through its counters, and the verdict theorems are "
+                 "stated for every way of assembling tiers from the dataplane's view",
+                 "c05_no_panic assumes well-typed updates (the value's type matches its key), as the typed syncer guarantees"],
 )
 
 
@@ -39,9 +45,11 @@ def run(ctx):
 
 MANIFEST = dict(
     category="proof",
-    text="Theorems over an executable model of ValidationFilter + ActiveRulesCalculator for every update history and every Go map "
-         "iteration order (a referenced missing/invalid profile is emitted as the single-deny stand-in and denies every packet "
-         "reaching it; a late profile's own rules replace it; an invalid write is message-for-message a delete; never more open "
-         "than absence), plus a correspondence run of model and spec oracle against the real filter and calculator.",
+    text="Theorems over an executable model of ValidationFilter + ActiveRulesCalculator + label index for every update history and "
+         "every Go map iteration order (a referenced missing/invalid profile is emitted as the single-deny stand-in and denies every "
+         "packet reaching it; a late profile's own rules replace it; an invalid write is message-for-message a delete; never more "
+         "open than absence; the dataplane holds exactly the current valid version of every selecting policy; no panic branch is "
+         "reachable), plus a correspondence run of model and spec oracle against the real filter and calculator (callback level) "
+         "and against the whole real calculation graph + EventSequencer (proto.ActiveProfileUpdate level).",
     note="Trusted: Coq kernel; hand-written model tied to the code only by the correspondence run; Go driver.",
 )
